@@ -42,6 +42,19 @@ pub fn is_capacity_panic(msg: &str) -> bool {
     msg.contains("Out of temporaries") || msg.contains("Out of registers") || msg.contains("too many arguments for main")
 }
 
+/// "too many arguments for main" is a documented limit only beyond the number of entry parameters
+/// the backend supports (x86-64: 5, AArch64: 7); below that it is a crash like any other.
+pub fn is_capacity_panic_for(msg: &str, main_params: usize, arch: Arch) -> bool {
+    if msg.contains("too many arguments for main") {
+        let limit = match arch {
+            Arch::X86 => 5,
+            _ => 7,
+        };
+        return main_params > limit;
+    }
+    is_capacity_panic(msg)
+}
+
 pub struct CaseRun {
     pub verdict: Verdict,
     pub fault: Option<Fault>,
